@@ -136,6 +136,39 @@ def parts_of(e):
         inner = parts_of(e.func.value)
         f = str.lower if e.func.attr == "lower" else str.upper
         return _merge([(k, f(v)) if k == "lit" else (k, v if v.endswith(f".{e.func.attr}()") else f"{v}.{e.func.attr}()") for k, v in inner])
+    # "sep".join((a, b, ...)) with a literal separator over a display
+    if isinstance(e, ast.Call) and isinstance(e.func, ast.Attribute) and e.func.attr == "join" and isinstance(e.func.value, ast.Constant) \
+            and isinstance(e.func.value.value, str) and len(e.args) == 1 and isinstance(e.args[0], (ast.Tuple, ast.List)) and not e.keywords:
+        out = []
+        for i, x in enumerate(e.args[0].elts):
+            if i:
+                out.append(("lit", e.func.value.value))
+            out += parts_of(x)
+        return _merge(out)
+    # "..{}..{1}..{name}..".format(...) with plain fields
+    if isinstance(e, ast.Call) and isinstance(e.func, ast.Attribute) and e.func.attr == "format" and isinstance(e.func.value, ast.Constant) \
+            and isinstance(e.func.value.value, str) and not any(isinstance(a, ast.Starred) for a in e.args) and all(k.arg for k in e.keywords):
+        import string
+        out, auto = [], 0
+        try:
+            for lit, field, spec, conv in string.Formatter().parse(e.func.value.value):
+                if lit:
+                    out.append(("lit", lit))
+                if field is None:
+                    continue
+                if spec or conv:
+                    return [("sym", ast.unparse(e))]
+                if field == "":
+                    arg = e.args[auto]
+                    auto += 1
+                elif field.isdigit():
+                    arg = e.args[int(field)]
+                else:
+                    arg = next(k.value for k in e.keywords if k.arg == field)
+                out += parts_of(arg)
+        except (IndexError, StopIteration, ValueError):
+            return [("sym", ast.unparse(e))]
+        return _merge(out)
     return [("sym", ast.unparse(e))]
 
 
